@@ -650,3 +650,15 @@ func ratStr(r *big.Rat) string {
 	}
 	return r.FloatString(20)
 }
+
+// collOf builds a system.Collection from items (nil collection when asNil and empty).
+func collOf(asNil bool, items []any) system.Collection {
+	if asNil && len(items) == 0 {
+		return nil
+	}
+	c := make(system.Collection, 0, len(items))
+	for _, x := range items {
+		c = append(c, x)
+	}
+	return c
+}
